@@ -79,7 +79,7 @@ def build_traces(lab, si, hdr, base, puts, tier):
                 torn = k
                 break
             pos += 5 + len(k) + len(v)
-        kinds = ["r", "anew", "coll_r", "ra_same", "coll_rw"] + (["atorn"] if torn is not None else [])
+        kinds = ["r", "anew", "coll_r", "ra_same", "same_ara", "coll_rw"] + (["atorn"] if torn is not None else [])
         for kind in kinds:
             ev, info = lab.recover(s, p, kind, extra=torn)
             tid = f"s{si}-p{p}-{kind}"
